@@ -15,6 +15,7 @@ package c11
 //        shows it (the same header/footer words are gone).
 
 import (
+	"bytes"
 	"fmt"
 	"os"
 	"path/filepath"
@@ -35,6 +36,9 @@ type APICase struct {
 	Doc    frag.Doc `json:"doc"`
 	Subset []int    `json:"subset,omitempty"` // 1-based pages for clause (P)
 	Option string   `json:"option"`           // both | headers | footers
+	// Damage: 1-based page whose content stream is made unreadable (a string left open) in a second copy of the
+	// file; the other pages, requested without it, must lose their running lines all the same (0 = none)
+	Damage int `json:"damage,omitempty"`
 }
 
 func init() { vr.Register("api", checkAPI) }
@@ -205,6 +209,46 @@ func checkAPI(c APICase) error {
 			}
 		}
 	}
+	// (D) one unreadable page elsewhere: the pages requested without it are read as before
+	if c.Damage > 0 && c.Option == "both" && len(d.Pages) >= 5 && len(d.Pages[c.Damage-1].Frags) > 0 {
+		first := d.Pages[c.Damage-1].Frags[0].T
+		needle := []byte("(" + first + ") Tj")
+		if i := bytes.Index(data, needle); i >= 0 && bytes.Count(data, needle) == 1 {
+			bad := append([]byte{}, data...)
+			copy(bad[i+len(needle)-4:], "  Tj") // the literal string never ends: same length, all offsets stay valid
+			bp := filepath.Join(dir, "damaged.pdf")
+			if err := os.WriteFile(bp, bad, 0o644); err != nil {
+				return fmt.Errorf("INFRA: %v", err)
+			}
+			if _, _, err := tabula.Open(bp).Pages(c.Damage).Text(); err != nil { // only if the damage makes the page unreadable
+				var rest []int
+				for p := 1; p <= len(d.Pages); p++ {
+					if p != c.Damage {
+						rest = append(rest, p)
+					}
+				}
+				got, _, err := withOption(tabula.Open(bp).Pages(rest...), c.Option).Text()
+				if err != nil {
+					return fmt.Errorf("Pages(%v) with exclusion failed on a file whose page %d is unreadable: %v", rest, c.Damage, err)
+				}
+				want, _, err := withOption(tabula.Open(path).Pages(rest...), c.Option).Text()
+				if err != nil {
+					return fmt.Errorf("Pages(%v) with exclusion failed: %v", rest, err)
+				}
+				for _, pn := range rest {
+					for _, fr := range d.Pages[pn-1].Frags {
+						t := strip(fr.T)
+						if !mustGo(d, fr) || len([]rune(t)) < 4 || !hasLetter.MatchString(t) {
+							continue
+						}
+						if lineContains(got, t) && !lineContains(want, t) {
+							return fmt.Errorf("page %d is unreadable; Pages(%v) under ExcludeHeadersAndFooters now shows the %s %q of page %d, which the intact file does not show for the same pages", c.Damage, rest, fr.Role, fr.T, pn)
+						}
+					}
+				}
+			}
+		}
+	}
 	return nil
 }
 
@@ -257,6 +301,9 @@ func hasMarginalRepeat(d frag.Doc) bool {
 
 func genAPI(t *rapid.T) APICase {
 	c := APICase{Doc: frag.GenDoc(t, frag.DocOpts{Want: vr.Want, MaxPages: 6}), Option: rapid.SampledFrom([]string{"both", "both", "headers", "footers"}).Draw(t, "option")}
+	if n := len(c.Doc.Pages); n >= 5 && rapid.Bool().Draw(t, "damage") {
+		c.Damage = rapid.IntRange(1, n).Draw(t, "damagedPage")
+	}
 	if n := len(c.Doc.Pages); n >= 2 && rapid.Bool().Draw(t, "subset") {
 		k := rapid.IntRange(1, n).Draw(t, "k")
 		seen := map[int]bool{}
